@@ -364,16 +364,20 @@ def run_property(mod, tier: str, seed: int, replay: str | None = None, jobs: int
             results.append(run_one(prop, c, tier_for_run, seed))
     else:
         import multiprocessing as mp
+        from concurrent.futures import ProcessPoolExecutor, as_completed
+        from concurrent.futures.process import BrokenProcessPool
 
         ctxmp = mp.get_context("spawn")
         # one case per task, dynamically scheduled (results are re-ordered below, so the report is
-        # independent of scheduling)
-        with ctxmp.Pool(jobs) as pool:
-            for part in pool.imap_unordered(
-                run_cases_in_worker,
-                [(mod.__name__, tier_for_run, seed, [cid]) for cid in ids],
-            ):
-                results.extend(part)
+        # independent of scheduling).  A worker that dies (segfault, out of memory maps) breaks the pool
+        # and is reported as a harness error instead of hanging the run.
+        try:
+            with ProcessPoolExecutor(max_workers=jobs, mp_context=ctxmp) as pool:
+                futs = [pool.submit(run_cases_in_worker, (mod.__name__, tier_for_run, seed, [cid])) for cid in ids]
+                for fut in as_completed(futs):
+                    results.extend(fut.result())
+        except BrokenProcessPool as e:
+            raise HarnessError(f"a worker process died while running {prop}: {e}") from e
         order = {cid: i for i, cid in enumerate(ids)}
         results.sort(key=lambda r: order[r["case"]])
 
